@@ -402,15 +402,16 @@ where
             let stopping = self.stopping.wait();
 
             spawn(async move {
-                let empty_q = match select(fut, stopping).await {
+                match select(fut, stopping).await {
                     Either::Left(item) => state.handle_result(item, response_idx, &st, &codec),
                     Either::Right(()) => {
                         state.handle_result(Ok(None), response_idx, &st, &codec)
                     }
                 };
-                if empty_q {
-                    st.notify_dispatcher();
-                }
+                // always wake the dispatcher: the request whose response is polled inline
+                // may be parked in the protocol service buffer and only the dispatcher's
+                // readiness poll releases it
+                st.notify_dispatcher();
             });
         } else if let Poll::Ready(res) = Pin::new(&mut fut).poll(cx) {
             // check if current result is only response
